@@ -127,6 +127,7 @@ type Sim struct {
 	uuid      atomic.Uint64
 	tmpn      atomic.Uint64
 	ioN       atomic.Int64 // file operations reached so far
+	pend      *pendW
 	siteSteps int
 	crashSite atomic.Value // site of the file operation the injected crash preceded
 }
@@ -343,8 +344,18 @@ func Lock(site string, m locker) {
 		return
 	}
 	Yield(site)
+	// sync.RWMutex prefers writers: once a writer waits, new readers wait too
+	// (a goroutine that read-locks recursively deadlocks with it). The
+	// try-lock loop below would hide that, so waiting writers are announced.
+	rw, isRW := m.(*sync.RWMutex)
+	if isRW {
+		pendingWriter(rw, +1)
+	}
 	for !m.TryLock() {
 		Yield(site + ":blocked")
+	}
+	if isRW {
+		pendingWriter(rw, -1)
 	}
 }
 
@@ -355,9 +366,42 @@ func RLock(site string, m rlocker) {
 		return
 	}
 	Yield(site)
-	for !m.TryRLock() {
+	rw, _ := m.(*sync.RWMutex)
+	for (rw != nil && pendingWriter(rw, 0) > 0) || !m.TryRLock() {
 		Yield(site + ":blocked")
 	}
+}
+
+type pendW struct {
+	m    *sync.RWMutex
+	n    int
+	next *pendW
+}
+
+// pendingWriter adjusts and returns the number of simulated goroutines
+// waiting to write-lock m.
+//
+//go:norace
+func pendingWriter(m *sync.RWMutex, d int) int {
+	s := cur.Load()
+	if s == nil {
+		return 0
+	}
+	raceDisable()
+	defer raceEnable()
+	s.mu.Lock()
+	defer s.mu.Unlock()
+	for p := s.pend; p != nil; p = p.next {
+		if p.m == m {
+			p.n += d
+			return p.n
+		}
+	}
+	if d != 0 {
+		s.pend = &pendW{m: m, n: d, next: s.pend}
+		return d
+	}
+	return 0
 }
 
 //go:norace
